@@ -380,7 +380,7 @@ impl<'tx> TxInner<'tx> {
         crate::verif_hooks::yield_point("commit:before_meta_write");
         if let TxLock::Rw(file) = &mut self.lock {
             // write meta page to file
-            {
+            let written = (|| -> Result<()> {
                 let mut buf = vec![0; self.db.inner.pagesize as usize];
 
                 #[allow(clippy::cast_ptr_alignment)]
@@ -401,12 +401,19 @@ impl<'tx> TxInner<'tx> {
 
                 file.seek(SeekFrom::Start(self.db.inner.pagesize * meta_page_id))?;
                 file.write_all(buf.as_slice())?;
-            }
 
-            #[cfg(feature = "verif-hooks")]
-            crate::verif_hooks::yield_point("commit:before_sync");
-            file.flush()?;
-            file.sync_all()?;
+                #[cfg(feature = "verif-hooks")]
+                crate::verif_hooks::yield_point("commit:before_sync");
+                file.flush()?;
+                file.sync_all()?;
+                Ok(())
+            })();
+            // Even if writing or syncing the meta page reported an error, the new meta page may be
+            // complete in the file. Readers and the next writer follow whichever meta page is valid,
+            // so the shared freelist has to match it, otherwise pages of the visible state get reused.
+            if written.is_err() && self.db.inner.meta()?.tx_id != self.meta.tx_id {
+                return written;
+            }
 
             #[cfg(feature = "verif-hooks")]
             {
@@ -421,7 +428,7 @@ impl<'tx> TxInner<'tx> {
                 drop(lock);
                 crate::verif_hooks::yield_point("commit:published");
             }
-            Ok(())
+            written
         } else {
             unreachable!()
         }
